@@ -145,7 +145,7 @@ where
 /// 1. If the string starts with `-`, it's stripped and "negative_" is prepended to the result.
 /// 2. Sanitizes the base string.
 /// 3. Converts to `snake_case`.
-/// 4. If the result is `self`, it becomes `self_`.
+/// 4. If the result is `self`, `crate` or `super`, it gets a trailing underscore (`self_`).
 /// 5. If the result is a keyword, it gets a raw identifier prefix (`r#`).
 /// 6. If the result starts with a digit, it's prefixed with `_`.
 /// 7. If the result is empty, it becomes `_`.
@@ -170,8 +170,9 @@ pub(crate) fn to_rust_field_name(name: &str) -> String {
     ident = format!("negative_{ident}");
   }
 
-  if ident == "self" {
-    return "self_".to_string();
+  // keywords that cannot be raw identifiers get a trailing underscore instead of `r#`
+  if matches!(ident.as_str(), "self" | "crate" | "super") {
+    return format!("{ident}_");
   }
 
   if FORBIDDEN_IDENTIFIERS.contains(ident.as_str()) {
